@@ -33,7 +33,8 @@ REQUIRED_THEOREMS = [
     'C16_reproducible', 'C16_reproducible_any_world', 'C16_reproducible_partial',
     'C16_pam_global_counterexample', 'C16_seed_sensitive', 'C16_disjoint', 'C16_pam_alloc_disjoint',
     'C16_disjoint_partial', 'C16_disjoint_prior_partial', 'C16_independent_outputs_counterexample',
-    'C16_noise_nonempty', 'C16_generator_advanced', 'C16_generator_rejected_counterexample']
+    'C16_noise_nonempty', 'C16_generator_advanced', 'C16_generator_rejected_counterexample',
+    'C16_prior_generator_repaired']
 RULE = ('entry points: the four error models (also reduced), elementary / covariate-wrapped / composed '
         'population models (also reduced), PredictiveModel, PopulationPredictiveModel, Prior-, Posterior- and '
         'PAM predictive models over both, sample_initial_parameters of LogPosterior, HierarchicalLogPosterior '
@@ -552,7 +553,8 @@ def runner_pam(chi, rng):
         return ['pam', [[K.spec_wire(spec), int(c)] for c in cnt], nT]
 
     cfg = {'entry': 'pam', 'spec': spec, 'times': times, 'n': n, 'weights': weights, 'n_models': n_models}
-    r = Runner('pam', 'PAMPredictiveModel', entry, run, bounds={'rows': n_chains * n_draws}, pattern=False,
+    r = Runner('pam', 'PAMPredictiveModel', entry, run,
+               bounds={'rows': n_chains * n_draws, 'pam_p': list(np.asarray(weights) / np.sum(weights))}, pattern=False,
                counts=(counts_of, weights))
     return r, cfg, 'pam/%d-models/%d-outputs' % (n_models, len(outputs)), True
 
@@ -752,6 +754,16 @@ def check_runner(ctx, chi, r, cfg, cls, nontrivial, rng):
             pred = r.forward(m, rp)
             if pred is not None and not core.close(sorted(pred.items()), sorted(out1.items())):
                 return False
+        if r.name == 'priorPredictive':
+            z_ = prior_standardised(r, cfg, out1, s)
+            if z_ is not None and not core.close(sorted(z_.items()), sorted(prior_model_noise(r, m, s, w1).items()),
+                                                 rtol=1e-7, atol=1e-7):
+                return False
+        # the state the global generator is left in (tells a global draw from a seeded one)
+        rp_ = K.Replay(w1, s, r.bounds, r.prior).run(m.calls)
+        want_ = rp_.state_of(m.glob_after[0])
+        if want_ is not None and not K.legacy_state_equal(glob1, want_):
+            return False
         return True
 
     v, m, matched = choose_variant(ctx, r, entry, s, w1, observe_int)
@@ -789,7 +801,14 @@ def check_runner(ctx, chi, r, cfg, cls, nontrivial, rng):
     except Exception as e:  # noqa
         raised = core.errkind(e)
         ctx.errkinds.add(raised)
-    mg = K.model_run(ctx, v, entry if not callable(r.entry) else r.entry(outA if raised is None else out1), g, w1)
+    entry_g = entry if not callable(r.entry) else r.entry(outA if raised is None else out1)
+    vg = v
+    mg = K.model_run(ctx, vg, entry_g, g, w1)
+    if raised is None and mg.err and r.name == 'priorPredictive':
+        # repaired behaviour: one integer is drawn from the Generator and used as the seed
+        vg = (v[0], v[1], int(K.make_seed(g).integers(low=0, high=1E6)))
+        mg = K.model_run(ctx, vg, entry_g, g, w1)
+        ctx.branches.add('variant:priorPredictive:generator-accepted')
     ctx.agree('C16.generator_accepted/%s' % r.name, raised is None, not mg.err, inp)
     if r.documented_generator:
         ctx.spec('C16.generator_accepted/%s' % tagc, raised is None, inp, {'raised': raised})
@@ -821,9 +840,9 @@ def check_runner(ctx, chi, r, cfg, cls, nontrivial, rng):
                      inp, {'restarted': restarted})
         # second call continues the stream: model run from the advanced counter
         if mg.seed_after is not None and not callable(r.entry):
-            g2 = ('gen', g[1], g[2])
-            m2 = ctx.model('C16.run', bool(v[0]), bool(v[1]), entry, mg.seed_after, K.world_wire(w1))
-            m2 = K.ModelRun(m2)
+            vg2 = vg if len(vg) < 3 else (vg[0], vg[1], int(_clone_generator(state_of=stateA).integers(
+                low=0, high=1E6)))
+            m2 = K.model_run_wire(ctx, vg2, entry, mg.seed_after, K.world_wire(w1))
             rp2 = K.Replay(w1, g, r.bounds, r.prior)
             rp2.gens[K.skey(['S', g[1]])] = _clone_generator(state_of=stateA)
             rp2._seed_key = (K.skey(['S', g[1]]), mg.seed_after[2])
@@ -955,16 +974,14 @@ def pam_reproducible(ctx, r, s, w1, out1, inp):
     return K.entries_equal(out1, out2)
 
 
-def check_prior_pattern(ctx, chi, r, cfg, m, out1, s, w1, inp):
-    """PriorPredictiveModel: the parameters of sample k are row k of the prior's draws under the global
-    generator seeded with `seed`; given them, standardised residuals of two outputs coincide exactly when
-    the model says they read the same variates"""
+def prior_standardised(r, cfg, out1, s):
+    """PriorPredictiveModel over an individual-level model: standardised residual of every entry, given the
+    parameters of sample k = row k of the prior's draws under the global generator seeded with `seed`"""
     spec = cfg['spec']
-    if spec['type'] != 'indiv':
-        return
+    if spec['type'] != 'indiv' or spec['kinds'][0] == 'CM':
+        return None
     n, times = cfg['n'], cfg['times']
     ts = np.sort(times)
-    # parameter draws: replay the prior on RandomState(s)
     keep = np.random.get_state()
     np.random.seed(s)
     rows = [r.prior.sample().flatten() for _ in range(n)]
@@ -972,8 +989,6 @@ def check_prior_pattern(ctx, chi, r, cfg, m, out1, s, w1, inp):
     cls_ = K.FlatToy if spec.get('flat') else toy.ToyModel
     mech = cls_(len(spec['kinds']), spec['n_mech'], spec['toy_seed'])
     kind = spec['kinds'][0]
-    if kind == 'CM':
-        return
     z = {}
     for (u, o, t), val in out1.items():
         psi = rows[u][:spec['n_mech']]
@@ -985,7 +1000,11 @@ def check_prior_pattern(ctx, chi, r, cfg, m, out1, s, w1, inp):
             z[(u, o, t)] = (val - yb) / (yb * sig)
         else:
             z[(u, o, t)] = (math.log(val / yb) + sig ** 2 / 2) / sig
-    # replay of the noise variates
+    return z
+
+
+def prior_model_noise(r, m, s, w1):
+    """the noise variate the model says every entry reads"""
     rp = K.Replay(w1, s, r.bounds, r.prior)
     rp.run([c for c in m.calls if c['kind'] != 'prior'])
     pred = {}
@@ -993,6 +1012,17 @@ def check_prior_pattern(ctx, chi, r, cfg, m, out1, s, w1, inp):
         v = rp.value(c['noise'][0])
         if v is not None:
             pred[(c['unit'], c['out'], c['time'])] = float(v)
+    return pred
+
+
+def check_prior_pattern(ctx, chi, r, cfg, m, out1, s, w1, inp):
+    """given the prior draws, standardised residuals of two outputs coincide exactly when the model says they
+    read the same variates"""
+    spec = cfg['spec']
+    z = prior_standardised(r, cfg, out1, s)
+    if z is None:
+        return
+    pred = prior_model_noise(r, m, s, w1)
     ctx.agree('C16.replay/priorPredictive.standardised_noise', sorted(z.items()), sorted(pred.items()), inp,
               rtol=1e-7, atol=1e-7)
     same = False
